@@ -697,7 +697,14 @@ class Builder:
             if short == "peek":
                 return N("peek", e, p=self.pe(args[0], env))
             if short == "not":
-                return N("notp", e, p=self.pe(args[0], env))
+                inner = self.pe(args[0], env)
+                i0 = inner
+                while i0["t"] in ("ctx", "cut"):
+                    i0 = i0["p"]
+                if i0["t"] == "set" and i0.get("min") == 1 and i0.get("max") == 1:
+                    # not(one character of S)  ≡  peek(one character outside S, or the end of input)
+                    return N("peek", e, p=N("alt", e, alts=[N("set", e, cs=cs_compl(i0["cs"]), min=1, max=1, one=True), N("eof", e)]), from_not=True)
+                return N("notp", e, p=inner)
             if short == "literal":
                 a = self.resolve_const(args[0], env)
                 if a["k"] == "lit" and a["t"] in ("str", "char"):
@@ -741,11 +748,15 @@ class Builder:
             fn = self.facts.fns[rf[0]]
             if self._input_name(fn) is None and "Parser<" in F.norm_ty(fn.node["output"]) and len(fn.params) == len(args) and all(n for n, _ in fn.params):
                 real = [s_ for s_ in fn.body["stmts"] if s_["k"] != "item"]
-                if len(real) == 1 and real[0]["k"] == "expr" and len(self.stack) < 40:
+                lets_ok = bool(real) and real[-1]["k"] == "expr" and not real[-1].get("semi") and all(s_["k"] == "let" and s_["pat"].get("k") == "ident" and s_.get("init") is not None and s_.get("else") is None for s_ in real[:-1])
+                if lets_ok and len(self.stack) < 40:
                     from .normalise import _subst
 
-                    clash = [n for n, _ in fn.params if n in env and not n.startswith("__")]
-                    body = _subst(real[0]["e"], {n: a for (n, _), a in zip(fn.params, args)})
+                    # parameters, then the let-bound sub-parsers in order, are replaced by what they stand for
+                    sub = {n: a for (n, _), a in zip(fn.params, args)}
+                    for s_ in real[:-1]:
+                        sub[s_["pat"]["name"]] = _subst(s_["init"], sub)
+                    body = _subst(real[-1]["e"], sub)
                     mk = ("expand", rf[0])
                     if self.stack.count(mk) < 3:
                         self.stack.append(mk)
